@@ -272,7 +272,6 @@ def _shape_global_declared(text, offset, tree):
 # known defects with the exact shape of input they need: signature -> (shape name, test)
 SHAPES = {
     "exc:AttributeError@functionutils._get_source_range": ("kwonly-without-default", _shape_kwonly_without_default),
-    "exc:AttributeError@findit.find_definition": ("declared-global", _shape_global_declared),
 }
 
 
@@ -338,6 +337,36 @@ def odd_body_indent(text, offset):
     ind = len(line) - len(line.lstrip(" "))
     pind = len(lines[j]) - len(lines[j].lstrip(" "))
     return ind - pind != 4
+
+
+def try_body_with_dedented_line(text):
+    """what _Commenter._find_matching_deindent takes for the end of a try body is not its handler: the first
+    non-blank, non-comment line indented no deeper than some `try:` is a continuation line inside brackets (the
+    code says: HACK, we should have used logical lines here); `finally: pass` is then inserted in mid-body"""
+    lines = text.split("\n")
+
+    def ind(l):
+        return len(l) - len(l.lstrip(" "))
+
+    for k, line in enumerate(lines):
+        if line.strip().startswith("try:"):
+            for later in lines[k + 1:]:
+                st = later.strip()
+                if st == "" or st.startswith("#"):
+                    continue
+                if ind(later) <= ind(line):
+                    if not (st.startswith("finally:") or st.startswith("except ") or st.startswith("except:")):
+                        return True
+                    break
+    return False
+
+
+def repair_refused_signature(text, offset):
+    if odd_body_indent(text, offset):
+        return "repair-refused:odd-body-indent"
+    if try_body_with_dedented_line(text):
+        return "repair-refused:dedented-line-in-try-body"
+    return "repair-refused"
 
 
 def texts_of(src):
@@ -432,7 +461,7 @@ def sweep_text(project, text, offset, trunc, stats, found, entries=ENTRIES, expe
                     continue
                 sig = signature_of(entry, e, e.__traceback__, text, offset, origin)
                 if repair_refused:
-                    sig = "repair-refused" + (":odd-body-indent" if odd_body_indent(text, offset) else "")
+                    sig = repair_refused_signature(text, offset)
                 stats["internal"] = stats.get("internal", 0) + 1
                 rec = found.get(sig)
                 if rec is None or len(text) < len(rec["text"]):
@@ -484,7 +513,7 @@ def replay_one(rec):
                     if type(e).__name__ == "ModuleSyntaxError" and rec.get("maxfixes", 1) >= 1 and not valid \
                             and rec["entry"].startswith("code_assist") and is_valid(replaced_by_pass(text, offset)) \
                             and not text[text.rfind("\n", 0, offset) + 1:offset].rstrip().endswith(":"):
-                        return "repair-refused" + (":odd-body-indent" if odd_body_indent(text, offset) else "")
+                        return repair_refused_signature(text, offset)
                     return None
                 return signature_of(rec["entry"], e, e.__traceback__, text, offset)
             return None
